@@ -1433,7 +1433,9 @@ pub fn race_s_chan(tier: &str) -> Vec<Program> {
     if tier != "quick" {
         base.extend(chan_family(1, 2, 2, false));
     }
-    expand_cells(&base)
+    let mut v = expand_cells(&base);
+    v.extend(race_guarded_family());
+    v
 }
 
 fn expand_cells(base: &[Program]) -> Vec<Program> {
@@ -2952,4 +2954,42 @@ pub fn prelude_bases(tier: &str) -> Vec<Program> {
     v.extend(pick(a_sc(1, 2, 2, 4, false), n));
     v.extend(pick(wait_loop_family(false).into_iter().filter(|p| p.threads.len() <= 3).collect(), n));
     v.into_iter().map(|p| with_prelude(&p)).collect()
+}
+
+/// RACE-guarded: a conflicting access that only happens once a *relaxed* flag shows that a
+/// later publication was already issued - so the interleaving in which the access simply comes
+/// first (and the race is obvious) does not exist, and a primitive that acquires too much hides
+/// the race. Channels: the late sender writes the cell, sends and raises the flag; the receiver
+/// reads the flag, takes fewer messages than were sent and reads the cell if the flag was up: it
+/// may have received only the other senders' messages.
+pub fn race_guarded_family() -> Vec<Program> {
+    let mut out = vec![];
+    for k in 2..=3usize {
+        for r in 1..k {
+            for recv_is_main in [true, false] {
+                let objs = Objs { atomics: vec![0], cells: 1, chans: 1, ..Default::default() };
+                let mut senders: Vec<Vec<Op>> = (1..k).map(|i| vec![K::Send { ch: 0, v: i as u64 }.into()]).collect();
+                senders.push(vec![wr(0), K::Send { ch: 0, v: 9 }.into(), st(0, 1, Rlx)]);
+                let mut rx: Vec<Op> = vec![ld(0, Rlx)];
+                for _ in 0..r {
+                    rx.push(K::Recv { ch: 0 }.into());
+                }
+                // index of the flag load inside the receiving thread (main starts with k spawns)
+                let at = if recv_is_main { k } else { 0 };
+                rx.push(K::CellRead { c: 0 }.when(at, Res::V(1)));
+                // drain the rest so that nothing leaks
+                for _ in r..k {
+                    rx.push(K::Recv { ch: 0 }.into());
+                }
+                if recv_is_main {
+                    out.push(with_main("RACE-guarded-chan", objs, vec![], senders, rx, vec![]));
+                } else if k == 2 {
+                    let mut ch = senders.clone();
+                    ch.push(rx);
+                    out.push(with_main("RACE-guarded-chan-child", objs, vec![], ch, vec![], vec![]));
+                }
+            }
+        }
+    }
+    out
 }
